@@ -26,7 +26,8 @@ RULES = {
            "specification's Eval (value, or failure class and missing key); non-trivial = composite graph",
     "C10": "same CASE export; the three real calls validate/keys/evaluate on fresh graphs must succeed or fail together whenever "
            "the specification says no body/predicate raises and every value is in its domain, and a passing validate excludes a "
-           "missing-option failure of evaluate; non-trivial = some call fails in the specification",
+           "missing-option failure of evaluate; the same agreement on every bracketing of pipelines of <= 3-4 steps from "
+           "spec/Pipelines.tla; non-trivial = some call fails in the specification",
     "C11": "same CASE export, every dictionary incl. the empty one and all sub-dictionaries of sufficient ones; explain() against "
            "keys()/validate() of the same real graph (covers keys; absent listed keys <=> validate fails for a missing option; the "
            "missing key is listed; failures only InsufficientInformationError where the specification cannot choose a branch); "
@@ -59,6 +60,17 @@ RULES = {
            "values equal the all-switches-off fresh value; disabled cache neither reads nor writes (recompute, next enabled evaluation "
            "recomputes once, stored entry survives); no effect when disabled; no logging record when disabled, otherwise exactly one "
            "INFO record per dataset evaluation not served from a cache; non-trivial = graph contains a dataset",
+    "C19": "family classes: every dataset class of 1-3 members (options with flat and dotted keys, options with defaults, datasets, "
+           "function applications, constants; the first member inherited from a base class) x every dictionary; attributes of the "
+           "instance = the specification's Eval of each member; class-level keys/validate/explain = the specification's union; for "
+           "ALL pairs of dictionaries of a class: instances equal iff the options restricted to the reported keys (the specification's "
+           "Restrict, nested dotted keys by path) are equal; repr shows every reported key with its value; non-trivial = instantiation succeeds",
+    "C20": "family pickling: dataset graphs built only from importable module-level callables (harness/picklelib.py: explicit "
+           "dataset(f) form, overloads registered before pickling, pre-set/default options, callbacks, effects, derivatives, cached, "
+           "switch, coalesce, wrappers, collections, Map); pickle round trip in-process for every protocol (cold and warm caches) and "
+           "into a freshly started interpreter (batched); outcomes and keys() of the copy = those of a fresh original for every "
+           "dictionary; a further register() + evaluation on the copy works; the decorator form is a listed known finding; "
+           "non-trivial = the graph contains a dataset",
     "C03": "same CASE export grouped by graph: keys() present-only; evaluate()/keys() on the dictionary restricted to keys() (the "
            "specification's Restrict) unchanged; for ALL pairs of dictionaries of a graph the fingerprints are equal iff reported "
            "keys and their values are equal (this enumerates every change/delete/add perturbation inside the universe); "
@@ -123,6 +135,24 @@ FAMILIES = {
         runs={"quick": [dict(mode="bfs", max_nodes=4), dict(mode="sim", max_nodes=6, min_nodes=3, num=16000, depth=26, procs=8, sharing=True)],
               "thorough": [dict(mode="bfs", max_nodes=5), dict(mode="sim", max_nodes=7, min_nodes=3, num=80000, depth=32, procs=12, sharing=True)]},
         shards=[["ds"]], shard_defs={"ds": "SK_ds"}),
+    "classes": dict(
+        consts=dict(Raises="NoRaises", Kinds="FL_Kinds", Paths="FL_Paths", Consts="FL_Consts", Tmpls="None0",
+                    Fns="None0", Bodies="FL_Bodies", DispVals="NoSeq", Preds="None0", Presets="None0",
+                    MapPaths="None0", Leaves="FL_Leaves", CollKinds="DictOnly"),
+        sharing=False,
+        runs={"quick": [dict(mode="bfs", max_nodes=4)], "thorough": [dict(mode="bfs", max_nodes=5)]},
+        shards=[["coll"]], shard_defs={"coll": "SK_coll"}),
+    "pickling": dict(
+        consts=dict(Raises="NoRaises", Kinds="FG_Kinds", Paths="FK_Paths", Consts="FK_Consts", Tmpls="None0",
+                    Fns="FK_Fns", Bodies="FK_Bodies", DispVals="FK_Disp", Preds="None0", Presets="FK_Presets",
+                    MapPaths="FK_MapPaths", Leaves="FK_Leaves", Cbs="FP_Cbs", EffSets="FK_Effs", Caches="FK_Caches"),
+        sharing=True, bfs_consts=dict(Kinds="FK_KindsB", Caches="MemOnly", EffSets="NoEff", Cbs="FK_Cbs"),
+        runs={"quick": [dict(mode="bfs", max_nodes=3, sharing=False),
+                        dict(mode="sim", max_nodes=5, min_nodes=3, num=12000, depth=16, procs=8)],
+              "thorough": [dict(mode="bfs", max_nodes=4, sharing=False),
+                           dict(mode="sim", max_nodes=6, min_nodes=3, num=60000, depth=18, procs=12)]},
+        shards=[["ds"], ["cached"], ["with"], ["fnapp"]],
+        shard_defs={"ds": "SK_ds", "cached": "SK_cached", "with": "SK_with", "fnapp": "SK_leafish"}),
     "options": dict(
         consts=dict(Raises="NoRaises", Kinds="FO_Kinds", Paths="FO_Paths", Consts="FO_Consts", Tmpls="FO_Tmpls",
                     Fns="None0", Bodies="FO_Bodies", DispVals="NoSeq", Preds="FO_Preds", Presets="None0",
@@ -139,7 +169,7 @@ FAMILIES = {
 def write_cfg(path, fam, tier, roots_def, invariants, emit, max_nodes, min_nodes=1, sim=False, sharing=None):
     f = FAMILIES[fam]
     lines = ["SPECIFICATION MCSpec", "CONSTANTS"]
-    consts = dict(Cbs="NoCb", EffSets="NoEff", Caches="MemOnly", BothPresets="FALSE")
+    consts = dict(Cbs="NoCb", EffSets="NoEff", Caches="MemOnly", BothPresets="FALSE", CollKinds="AllColl")
     consts.update(f["consts"])
     if not sim and "bfs_consts" in f:
         consts.update(f["bfs_consts"])
@@ -184,17 +214,20 @@ def _work(groups):
     out = []
     n = nt = 0
     sample = None
+    pairs = []
     for payloads in groups:
         cases = [json.loads(p) for p in payloads]
         n += len(cases)
-        for case, res in verdicts.judge_group(_PROP, cases, _LAB):
-            if res.nontrivial:
-                nt += 1
-                if sample is None:
-                    sample = case
-            for clause, detail in res.violations:
-                if len(out) < 200:
-                    out.append((clause, detail, case))
+        pairs.extend(verdicts.judge_group(_PROP, cases, _LAB))
+    verdicts.finish_chunk(_PROP, _LAB)
+    for case, res in pairs:
+        if res.nontrivial:
+            nt += 1
+            if sample is None:
+                sample = case
+        for clause, detail in res.violations:
+            if len(out) < 200:
+                out.append((clause, detail, case))
     return n, nt, out, sample
 
 
@@ -353,13 +386,19 @@ def summarize(viol, limit=12):
             len(items), clause, root, kinds, detail, canon(case["nodes"]), canon(case["a"]["o"])), file=sys.stderr)
 
 
-def check(prop, tier, fams, level_rule, assumptions):
+def check(prop, tier, fams, level_rule, assumptions, extra=None):
     timer = Timer()
     rep = Reporter(prop)
     states = trans = total = nontriv = 0
     allviol = []
     sample = None
     with Scratch() as sc:
+        if extra is not None:
+            st, tr, n, nt = extra(prop, tier, sc, rep)[:4]
+            states += st
+            trans += tr
+            total += n
+            nontriv += nt
         for fam in fams:
             st, tr, n, nt, viol, smp = run_family(prop, fam, tier, sc, rep)
             sample = smp or sample
